@@ -80,6 +80,7 @@ class Ctx:
         self.extra = {}
         self.explanation = ''
         self.errors = []
+        self._called = set()
         try:
             self.seed = int(os.environ.get('VERIF_SEED', '0'))
         except ValueError:
@@ -88,6 +89,10 @@ class Ctx:
     def call(self, fn, *args, **kw):
         """run one rule; a rule that cannot be evaluated (AnalysisError) does not keep the others from running.  The
         errors are raised together once every rule has had its turn (see main)."""
+        key = (getattr(fn, '__module__', ''), getattr(fn, '__name__', ''), repr(args[1:]), repr(sorted(kw.items())))
+        if key in self._called:
+            return None
+        self._called.add(key)
         try:
             return fn(self, *args, **kw)
         except AnalysisError as e:
